@@ -286,8 +286,16 @@ impl Monitor for C20 {
                                     if q.token_in as i128 != paid {
                                         // the specified side is echoed through reverse(apply(x)), which is not the identity on
                                         // fee plateaus; the program charges the specified amount. Not part of the property
-                                        // (it constrains the swap computation); recorded as an observation.
-                                        cov.note("c20_exact_in_quote_echoes_smaller_token_in_than_charged");
+                                        // (it constrains the swap computation); recorded as an observation - for an input token
+                                        // that carries a transfer fee only: without one nothing is echoed through anything, and
+                                        // what the quote says goes in is what the program takes (e.g. less than specified when
+                                        // the price runs into the end of the range)
+                                        let input_fee = if a.a_to_b { fa } else { fb };
+                                        if input_fee.is_some() {
+                                            cov.note("c20_exact_in_quote_echoes_smaller_token_in_than_charged");
+                                        } else {
+                                            out.push(viol("sdk_quote_differs", ev.idx, format!("swap_quote_by_input_token says {} go in, the program took {} (specified {}, no transfer fee on the input token)", q.token_in, paid, a.amount)));
+                                        }
                                     }
                                     if q.token_est_out as i128 != got {
                                         out.push(viol("sdk_quote_differs", ev.idx, format!("swap_quote_by_input_token: quote in {} est out {}; executed paid {} received {} (fees a {:?} b {:?})", q.token_in, q.token_est_out, paid, got, fa.map(|f| (f.fee_bps, f.max_fee)), fb.map(|f| (f.fee_bps, f.max_fee)))));
@@ -403,8 +411,8 @@ impl Monitor for C20 {
                                 cov.probe("boundary_amount_delta_probes");
                                 let pa = whirlpool::math::get_amount_delta_a(pl, pu, l, up);
                                 let pb = whirlpool::math::get_amount_delta_b(pl, pu, l, up);
-                                let sa = std::panic::catch_unwind(|| sdk::try_get_amount_delta_a(pl, pu, l, up));
-                                let sb = std::panic::catch_unwind(|| sdk::try_get_amount_delta_b(pl, pu, l, up));
+                                let sa = crate::rt::guarded(|| sdk::try_get_amount_delta_a(pl, pu, l, up));
+                                let sb = crate::rt::guarded(|| sdk::try_get_amount_delta_b(pl, pu, l, up));
                                 for (side, pv, sv) in [("A", pa.ok(), sa), ("B", pb.ok(), sb)] {
                                     let svv = match sv {
                                         Ok(Ok(x)) => Some(x),
@@ -473,9 +481,9 @@ impl Monitor for C20 {
                                             _ => Some(0),
                                         };
                                         let sq: Result<Option<(u64, u64)>, ()> = if inc {
-                                            std::panic::catch_unwind(|| sdk::increase_liquidity_quote(l, 0, price, pos.lower, pos.upper, None, None).ok().map(|q| (q.token_est_a, q.token_est_b))).map_err(|_| ())
+                                            crate::rt::guarded(|| sdk::increase_liquidity_quote(l, 0, price, pos.lower, pos.upper, None, None).ok().map(|q| (q.token_est_a, q.token_est_b))).map_err(|_| ())
                                         } else {
-                                            std::panic::catch_unwind(|| sdk::decrease_liquidity_quote(l, 0, price, pos.lower, pos.upper, None, None).ok().map(|q| (q.token_est_a, q.token_est_b))).map_err(|_| ())
+                                            crate::rt::guarded(|| sdk::decrease_liquidity_quote(l, 0, price, pos.lower, pos.upper, None, None).ok().map(|q| (q.token_est_a, q.token_est_b))).map_err(|_| ())
                                         };
                                         let what = if inc { "increase_liquidity_quote" } else { "decrease_liquidity_quote" };
                                         cov.eval(format!("liquidity_quote_boundary|{}|program_ok={}|sdk={}", what, pa.is_some() && pb.is_some(), match &sq { Ok(Some(_)) => "ok", Ok(None) => "err", Err(_) => "panic" }));
@@ -506,8 +514,8 @@ impl Monitor for C20 {
                                     cov.probe("boundary_next_price_probes");
                                     let pa = whirlpool::math::get_next_sqrt_price_from_a_round_up(pool.sqrt_price, l, amount, inp).ok();
                                     let pb = whirlpool::math::get_next_sqrt_price_from_b_round_down(pool.sqrt_price, l, amount, inp).ok();
-                                    let sa = std::panic::catch_unwind(|| sdk::try_get_next_sqrt_price_from_a(pool.sqrt_price, l, amount, inp)).ok().and_then(|r| r.ok());
-                                    let sb = std::panic::catch_unwind(|| sdk::try_get_next_sqrt_price_from_b(pool.sqrt_price, l, amount, inp)).ok().and_then(|r| r.ok());
+                                    let sa = crate::rt::guarded(|| sdk::try_get_next_sqrt_price_from_a(pool.sqrt_price, l, amount, inp)).ok().and_then(|r| r.ok());
+                                    let sb = crate::rt::guarded(|| sdk::try_get_next_sqrt_price_from_b(pool.sqrt_price, l, amount, inp)).ok().and_then(|r| r.ok());
                                     // the SDK additionally refuses prices outside the protocol bounds; the program checks that later in the swap step
                                     let inb = |x: Option<u128>| x.filter(|v| (decode::MIN_SQRT_PRICE..=decode::MAX_SQRT_PRICE).contains(v));
                                     for (side, pv, sv) in [("A", inb(pa), sa), ("B", inb(pb), sb)] {
@@ -546,7 +554,7 @@ impl Monitor for C20 {
                         for t in ts {
                             cov.probe("sampled_tick_math_probes");
                             let p = crate::model::sqrt_price_of_tick(t);
-                            let sp = std::panic::catch_unwind(|| sdk::tick_index_to_sqrt_price(t)).ok();
+                            let sp = crate::rt::guarded(|| sdk::tick_index_to_sqrt_price(t)).ok();
                             if sp != Some(p) {
                                 out.push(viol("sdk_tick_math_differs", ev.idx, format!("tick {}: program price {} SDK price {:?}", t, p, sp)));
                                 break;
@@ -554,7 +562,7 @@ impl Monitor for C20 {
                             let mut bad = false;
                             for q in [p.saturating_sub(1).max(decode::MIN_SQRT_PRICE), p, (p + 1).min(decode::MAX_SQRT_PRICE), p + (r.next_u64() as u128 % (p / 20_000 + 1))] {
                                 let q = q.clamp(decode::MIN_SQRT_PRICE, decode::MAX_SQRT_PRICE);
-                                let st = std::panic::catch_unwind(|| sdk::sqrt_price_to_tick_index(q)).ok();
+                                let st = crate::rt::guarded(|| sdk::sqrt_price_to_tick_index(q)).ok();
                                 if st != Some(crate::model::tick_of_sqrt_price(q)) {
                                     out.push(viol("sdk_tick_math_differs", ev.idx, format!("price {}: program tick {} SDK tick {:?}", q, crate::model::tick_of_sqrt_price(q), st)));
                                     bad = true;
